@@ -480,8 +480,8 @@ def units(prop, tier):
 #   DSS.py sign: msg_hash.update(b'x') inserted (C19)                           exit 1  sign.modifies.<msg_hash>.g_data
 #   DSS.py _bits2int: shift b_len - q_len -> + 1                                exit 1  _bits2int.ensures.rfc6979_2_3_2
 #   DSS.py _bits2octets: `z1 < self._order` -> `<=`                             exit 1  _bits2octets.call_pre of _int2octets
-#   DSS.py _bits2octets: `z2 = z1 - self._order` -> `z2 = z1`                   exit 2  (engine: a call_pre violated on every model of the path is
-#                                                                                        reported as "contract cannot be satisfied"; reported to main)
+#   DSS.py _bits2octets: `z2 = z1 - self._order` -> `z2 = z1`                   exit 1  _bits2octets.call_pre of _int2octets (was exit 2 before the
+#                                                                                        engine fix of _apply_bound for preconditions violated on a whole path)
 #   DSS.py _compute_nonce: (b'\x00', b'\x01') swapped                           exit 1  _compute_nonce.loop_inv_entry (first candidate state)
 #   DSS.py _compute_nonce: retry `mask_v + b'\x00'` -> b'\x01'                  exit 1  _compute_nonce.loop_inv_entry (inner loop)
 #   DSS.py _compute_nonce: `len(mask_t) < order_bytes` -> `<=`                  exit 1  _compute_nonce.loop_inv_preserved
